@@ -32,4 +32,5 @@ Check C16_matches_dir_conservative : forall s p d,
    exists r, path_string (with_absolute s p) = append_sep (path_string (with_absolute s d)) ++ r) ->
   matches_dir s d = true.
 Check C16_matches_prefix : forall ci txt p, compile_glob ci txt = Ok p -> forall s,
-  pat_matches_prefix p s = true <-> exists s1 s2, s = s1 ++ s2 /\ gmatch ci (pat_g p) s1.
+  pat_matches_prefix p s = true <->
+  exists s1 s2, s = s1 ++ s2 /\ gmatch ci (pat_g p) s1 /\ (s2 = nil \/ exists t, s2 = 47 :: t).
